@@ -99,9 +99,27 @@ Definition run_op (std : bool) (o : op) (st : tstate) (answers : list ans) : tst
         let swallowed (x : exc) := existsb (isinstance x) aclose_unwrap_swallows in
         let graceful := (fin, acts a ++ [OAct AReof; OAct AWeof; OAct AClose; ORes (Ret 0)], rest) in
         let forceful (res : apires) := (fin, acts a ++ [OAct AClose; ORes res], rest) in
+        (* unwrap() failed with an SSLError after the pump had written EOF to both BIOs; with the fix the close_notify
+           it may have produced is still sent (under the send lock, OSError suppressed) *)
+        let late_flush :=
+          match wbio s, rest with
+          | (_ :: _) as w, AT TSent :: rest' | (_ :: _) as w, AT TSendErr :: rest' =>
+              ({| sh := set_deque (set_wbio s []) []; closing := true; tr_closing := true |},
+               acts a ++ [OAct (ASend w); OAct AReof; OAct AWeof; OAct AClose; ORes (Ret 0)], rest')
+          | (_ :: _) as w, AT (TCancel true) :: rest' =>
+              ({| sh := set_deque (set_wbio s []) []; closing := true; tr_closing := true |},
+               acts a ++ [OAct (ASend w); OAct AClose; ORes (Ret 0)], rest')
+          | (_ :: _) as w, AT (TCancel false) :: rest' =>
+              ({| sh := set_deque (set_wbio s []) []; closing := true; tr_closing := true |},
+               acts a ++ [OAct (ASend w); OAct AClose; ORes (Raise XCancelled)], rest')
+          | (_ :: _) as w, _ => (fin, acts a ++ [OAct (ASend w); ORes Desync], rest)
+          | [], _ => graceful
+          end in
         match r with
         | ROk _ => graceful
-        | RSsl e => if swallowed (XSsl e) then graceful else forceful (raise_of r)
+        | RSsl e =>
+            if swallowed (XSsl e) then (if f_close_flush fl && negb (send_lock s) then late_flush else graceful)
+            else forceful (raise_of r)
         | ROSErr => if swallowed XOSError then graceful else forceful (raise_of r)
         | ROther => forceful (raise_of r)
         | RCancel true => forceful (Ret 0)            (* move_on_after(shutdown_timeout) catches its own cancellation *)
